@@ -30,14 +30,19 @@ What is proved, and for whom:
   requester is owed nothing.
   - `C03.teardown_releases`: a closed writer (`Writer.Close`, `OutPort.Close`, node close,
     process exit) – every continuation.  Full statement.
-  - `C03.teardown_releases_readers_partial`: a writer torn down only through its readers
-    (`Reader.Close`, `InPort.Close`) – every continuation that does not wire that writer to a
-    further reader.  `Writer.Link` on it can raise `μ` (`C03.relink_can_increase`: the stale drop
-    notice of a re-linked reader is counted again; it is then ignored) and, with an open reader,
-    ends the torn-down condition; the requester is released all the same in the concrete
-    histories (`C03.relink_released`, replayed on the code), the general statement with `link`
-    is `C03.teardown_releases_readers_full`, not proved.  The Go code links a writer only inside
-    `OutPort.Open`.
+  - `C03.teardown_releases_readers`: a writer torn down through its readers (`Reader.Close`,
+    `InPort.Close`) – EVERY continuation in which it stays torn down, wiring it to further (closed)
+    readers included.  Full statement (`C03.teardown_releases_readers_full_proved`).  `Writer.Link` can
+    raise `μ` (`C03.relink_can_increase`: `μ` counts the notices of the LINKED readers, the stale drop
+    notice of a re-linked reader is counted again), so the bound is stated with the measure `muR`
+    (Proofs/TeardownRelink.lean) that sums requests, drop notices and answers in flight over a fixed
+    finite set of readers containing every reader that carries any, linked or not: `Link` leaves it
+    where it is, a stale notice is paid for once – when it is delivered and ignored.  A `Link` to an
+    OPEN reader ends the torn-down condition itself (the writer accepts writes again): such
+    continuations are outside the statement by its hypothesis.
+  - `C03.teardown_releases_readers_no_relink`: the same writer, continuations that do not wire it
+    to a further reader: the torn-down condition is then PRESERVED (not assumed) and the bound is `μ`
+    (`C03.ReleasesUnderAnySchedule`).
   **What remains assumed is fairness only**: weak fairness of the Go scheduler towards the fair
   steps of the torn-down writer (the goroutines `Reader.Close` spawned run, a popped answer is
   delivered, the pump goroutine of a closed writer returns, the parked requester is handed what
@@ -60,10 +65,15 @@ What is proved, and for whom:
   the node holds nothing taken it awaits only the requests the forward loop has not yet taken,
   and its machine is the image of a C01 specification state whose rows owe `r` exactly those.
 
+* a request inside a node's action when the node is closed: when the action returns the forward
+  loop's remaining tracer calls change nothing for anybody and do not panic
+  (`C03.action_returns_after_node_close`).
+
 `RunNoSteal h`: the requester is the only consumer of its writer's `Receive()` channel (no step
 of `h` is a `steal`).
 -/
 import Uniflow.Proofs.TeardownUp
+import Uniflow.Proofs.TeardownRelink
 import Uniflow.Proofs.DropCommute
 
 open Uniflow Uniflow.Writer Uniflow.Teardown Uniflow.TeardownProofs Uniflow.WriterProofs
@@ -547,7 +557,8 @@ theorem C03.teardown_releases_nonvacuous :
 /-- The full statement for a writer that is torn down because every reader linked to it was
 closed while it stays open itself (`Reader.Close`, `InPort.Close`): the same as
 `C03.teardown_releases`, for every continuation without a second consumer in which `w` stays torn
-down – wiring `w` to further readers included –, with some bound in place of `μ`. -/
+down – wiring `w` to further readers included –, with some bound in place of `μ`.  Proved:
+`C03.teardown_releases_readers_full_proved`. -/
 def C03.teardown_releases_readers_full : Prop :=
   ∀ (t : Topo) (h : List Teardown.Step), RunNoSteal h → ∀ w,
     TornDown ((Teardown.run .discard t {} h).comp w) →
@@ -557,17 +568,98 @@ def C03.teardown_releases_readers_full : Prop :=
       B ≤ fairTaken t w (Teardown.run .discard t {} h) h' →
       ((Teardown.run .discard t (Teardown.run .discard t {} h) h').comp w).outstanding = 0
 
-/-- **Teardown releases – a writer all of whose readers are closed** (or that is closed: any
-torn-down writer).  `C03.Releases` of its state and `C03.ReleasesUnderAnySchedule` for every
-continuation without a second consumer in which `w` is not wired to a further reader
-(`NoRelinkOf w`: no `link` step *on `w`*; everything else, on `w` and everywhere else, is allowed).
-`_partial` with respect to `C03.teardown_releases_readers_full`: a `link` on `w` can raise `μ`
-(`C03.relink_can_increase`; by a stale drop notice or answer in flight of the reader that is
-linked, which is then ignored) and, if the reader is open, ends the torn-down condition itself;
-continuations with such steps are not covered by the bound (the concrete ones of
-`C03.relink_released` do release; the Go code links a writer only inside `OutPort.Open`).
-Fairness is assumed as in `C03.teardown_releases`. -/
-theorem C03.teardown_releases_readers_partial (t : Topo) (h : List Teardown.Step) (hs : RunNoSteal h) (w : WId)
+/-- What is claimed of every continuation in which `w` stays torn down (`∀ k`: in every state along
+`h'`), re-links of `w` included: there is a bound `B` – `muR R` of the state `s`, for a finite set `R`
+of readers containing every reader that still carries a request, a drop notice or an answer in flight
+for `w` – such that
+* at most `B` enabled fair steps of `w` are ever taken, whatever is interleaved;
+* once `B` of them have been taken the requester of `w` is owed nothing;
+* as long as it is owed something a fair step of `w` is enabled (weak fairness towards that set is
+  what is assumed);
+* every result the requester has obtained is a packet the writer emitted or – writer closed – the
+  closed channel. -/
+def C03.ReleasesWhileTornDown (t : Topo) (s : Sys) (w : WId) : Prop :=
+  ∃ B, ∀ h' : List Teardown.Step, RunNoSteal h' →
+    (∀ k, TornDown ((Teardown.run .discard t s (h'.take k)).comp w)) →
+    fairTaken t w s h' ≤ B ∧
+    (B ≤ fairTaken t w s h' → ((Teardown.run .discard t s h').comp w).outstanding = 0) ∧
+    (((Teardown.run .discard t s h').comp w).outstanding > 0 →
+      ∃ x, fairEnabled ((Teardown.run .discard t s h').comp w) x = true) ∧
+    (∀ x ∈ ((Teardown.run .discard t s h').comp w).got,
+      (∃ a, x = .got a ∧ a ∈ ((Teardown.run .discard t s h').comp w).p.pushed) ∨
+      (x = .closed ∧ ((Teardown.run .discard t s h').comp w).w.done = true))
+
+/-- **Teardown releases – a writer all of whose readers are closed, under ANY continuation.**  For
+every history and every writer `w` that is torn down: `C03.Releases` of its state and
+`C03.ReleasesWhileTornDown` – every continuation without a second consumer in which `w` stays torn
+down, *re-links of `w` included* (`Link` of a reader that is closed: its stale drop notices and
+answers in flight are delivered and ignored; a `Link` of an open reader makes `w` accept writes
+again, i.e. ends the torn-down condition, and is excluded by the hypothesis, not by a side
+condition on the steps).  The old measure `μ` fails here (`C03.relink_can_increase`); the bound is
+`muR R` (Proofs/TeardownRelink.lean): no step of anybody increases it while `w` is torn down – `Link`
+leaves it untouched –, every enabled fair step of `w` strictly decreases it.  What remains assumed
+is fairness, as in `C03.teardown_releases`. -/
+theorem C03.teardown_releases_readers (t : Topo) (h : List Teardown.Step) (hs : RunNoSteal h) (w : WId)
+    (ht : TornDown ((Teardown.run .discard t {} h).comp w)) :
+    C03.Releases ((Teardown.run .discard t {} h).comp w) ∧
+    C03.ReleasesWhileTornDown t (Teardown.run .discard t {} h) w := by
+  have hT := torn_reach t h hs w ht
+  refine ⟨releases_state _ hT.inv hT.backed hT.torn, ?_⟩
+  obtain ⟨cs, _, e⟩ := run_evolves .discard t {} h hs w
+  obtain ⟨R, hR⟩ := supp_runC cs {} ⟨[], supp_init⟩
+  rw [← e] at hR
+  have hg : TornR R ((Teardown.run .discard t {} h).comp w) := ⟨hT.inv, hT.backed, hT.torn, hR⟩
+  refine ⟨muR R ((Teardown.run .discard t {} h).comp w), ?_⟩
+  intro h' hs' hk
+  obtain ⟨h1, h2⟩ := sysR_run_le t w R h' _ hg hs' hk
+  refine ⟨by omega, ?_, fun ho => fair_progress _ h2.inv h2.backed h2.torn ho, got_shape _ h2.inv⟩
+  intro hm
+  have h0 : muR R ((Teardown.run .discard t (Teardown.run .discard t {} h) h').comp w) = 0 := by omega
+  simp only [muR, base] at h0
+  omega
+
+/-- `C03.teardown_releases_readers_full` holds. -/
+theorem C03.teardown_releases_readers_full_proved : C03.teardown_releases_readers_full := by
+  intro t h hs w ht
+  obtain ⟨h1, B, h2⟩ := C03.teardown_releases_readers t h hs w ht
+  exact ⟨h1, B, fun h' hs' hk hB => (h2 h' hs' hk).2.1 hB⟩
+
+/-- Non-vacuity, with a re-link in the continuation: the state of `C03.relink_can_increase` (readers 0
+and 1, one request; reader 0 unlinked and closed – its notice is stale –, reader 1 closed; `μ = 5`,
+`muR [0,1] = 6`).  The continuation wires the writer to the closed reader 0 again – `μ` goes to 6,
+`muR` stays 6 –, delivers the stale notice (ignored), lets the closed reader 1 try a late answer
+(refused), delivers reader 1's notice and lets the requester receive: the writer is torn down in
+every state on the way, three enabled fair steps are taken, `3 + muR(end) ≤ muR(start)`, and the
+requester is owed nothing: it has received `dropped`. -/
+theorem C03.teardown_releases_readers_nonvacuous :
+    let h : List Teardown.Step := [.prim 0 (.w (.link 0)), .prim 0 (.w (.link 1)), .prim 0 (.w (.write 7)),
+      .prim 0 (.w (.unlink 0)), .down (.readerClose 0 0), .down (.readerClose 0 1)]
+    let h' : List Teardown.Step := [.prim 0 (.w (.link 0)), .prim 0 (.w (.deliverDrop 0)), .prim 0 (.w (.answer 1 (.val 3))),
+      .prim 0 (.w (.deliverDrop 1)), .prim 0 .recv]
+    let s := Teardown.run .discard {} {} h
+    (s.comp 0).w.done = false ∧ RunNoSteal h' ∧
+    (∀ k, TornDown ((Teardown.run .discard {} s (h'.take k)).comp 0)) ∧
+    mu (s.comp 0) = 5 ∧ mu ((Teardown.run .discard {} s (h'.take 1)).comp 0) = 6 ∧
+    muR [0, 1] (s.comp 0) = 6 ∧ muR [0, 1] ((Teardown.run .discard {} s (h'.take 1)).comp 0) = 6 ∧
+    fairTaken {} 0 s h' = 3 ∧ muR [0, 1] ((Teardown.run .discard {} s h').comp 0) = 1 ∧
+    ((Teardown.run .discard {} s h').comp 0).outstanding = 0 ∧
+    ((Teardown.run .discard {} s h').comp 0).got = [.got Resp.dropped] := by
+  refine ⟨by decide, ?_, ?_, by decide, by decide, by decide, by decide, by decide, by decide, by decide, by decide⟩
+  · intro st hst
+    simp only [List.mem_cons, List.not_mem_nil, or_false] at hst
+    rcases hst with rfl | rfl | rfl | rfl | rfl <;> simp [StepNoSteal]
+  · exact forall_take (fun l => TornDown ((Teardown.run .discard {} _ l).comp 0)) _ (by decide)
+
+/-- **Teardown releases – a writer all of whose readers are closed, continuations without a
+re-link** (or a closed writer: any torn-down writer).  `C03.Releases` of its state and
+`C03.ReleasesUnderAnySchedule` for every continuation without a second consumer in which `w` is not
+wired to a further reader (`NoRelinkOf w`: no `link` step *on `w`*; everything else, on `w` and
+everywhere else, is allowed).  Compared with `C03.teardown_releases_readers`: the torn-down
+condition is not a hypothesis on the continuation but a conclusion (without a `link` no step ends
+it), and the bound is the simpler `μ`; continuations with a `link` on `w` – under which `μ` can
+grow, `C03.relink_can_increase` – are covered by `C03.teardown_releases_readers`.  Fairness is
+assumed as in `C03.teardown_releases`. -/
+theorem C03.teardown_releases_readers_no_relink (t : Topo) (h : List Teardown.Step) (hs : RunNoSteal h) (w : WId)
     (ht : TornDown ((Teardown.run .discard t {} h).comp w)) :
     C03.Releases ((Teardown.run .discard t {} h).comp w) ∧
     C03.ReleasesUnderAnySchedule (NoRelinkOf w) t (Teardown.run .discard t {} h) w := by
@@ -580,7 +672,7 @@ theorem C03.teardown_releases_readers_partial (t : Topo) (h : List Teardown.Step
 held-back drop notices (`μ = 2·2 + 0 + 2 + 2 + 1`).  A continuation with foreign steps on the
 same writer (a late answer of the closed reader, a refused write, the reader unlinked) between
 the fair ones ends with nothing owed. -/
-theorem C03.teardown_releases_readers_partial_nonvacuous :
+theorem C03.teardown_releases_readers_no_relink_nonvacuous :
     let h : List Teardown.Step := [.prim 0 (.w (.link 0)), .prim 0 (.w (.write 7)), .prim 0 (.w (.write 8)), .down (.readerClose 0 0)]
     let h' : List Teardown.Step := [.prim 0 (.w (.answer 0 (.val 1))), .prim 0 (.w (.deliverDrop 0)), .prim 0 (.w (.write 9)),
       .prim 0 .recv, .prim 0 (.w (.deliverDrop 0)), .prim 0 (.w (.unlink 0)), .prim 0 .recv]
@@ -603,7 +695,7 @@ request (`Reader.Receive` up to the release of `r.mu`) when the reader is closed
 finds nothing pending and spawns no drop notice; the only enabled fair step is the delivery of the
 answer in flight, which is credited to the row of its own write: the requester receives the real
 answer. -/
-theorem C03.teardown_releases_readers_partial_nonvacuous_flight :
+theorem C03.teardown_releases_readers_no_relink_nonvacuous_flight :
     let h : List Teardown.Step := [.prim 0 (.w (.link 0)), .prim 0 (.w (.write 7)), .prim 0 (.w (.pop 0 (.val 5))),
       .down (.readerClose 0 0)]
     ((Teardown.run .discard {} {} h).comp 0).w.closed 0 = true ∧
@@ -961,6 +1053,50 @@ theorem C03.forward_end_is_final_nonvacuous :
   decide
 
 /-! ## The window between a writer's creation and the start of its backward loop -/
+
+/-- **The action returns after the node was closed.**  A request can be inside a node's action when
+the node is closed (`Node.Close` = in-port close, out-port close, `Tracer.Close`; also `Symbol.Close`,
+`Table.Free`, an insert that replaces the node).  When the action returns, the forward loop goes on
+with its remaining tracer calls for that request (`Link`, `Write`).  In the model: a `fwd` step in
+any reachable state in which the node's in-reader `(w, r)` is closed and its out-writer `wo` is
+closed – what the node close leaves.  That step changes NOTHING for anybody: every component
+(writer machine, pump, what its requester has received and is still owed) is exactly as before, no
+request is added to what the node still has to answer, and the step does not panic – the write on
+the closed out-writer is refused (count 0), the request is passed up with itself as its answer to
+the closed in-reader, which ignores it.  What the requester was owed is released by the drop
+notice of the closed in-reader (`C03.teardown_releases_readers`), before or after this step.
+(The Go `Tracer.Close` replaces its maps by empty ones, so the late `Link` / `Write` find a tracer
+that follows nothing; with nil maps they panic – seeded change c03j, caught by the window family
+"node close between the forward loop's Open and its Write".) -/
+theorem C03.action_returns_after_node_close (t : Topo) (h : List Teardown.Step) (w : WId) (r : RId) (wo : WId)
+    (hl : t.listener w r = .node wo)
+    (hc : ((Teardown.run .discard t {} h).comp w).w.closed r = true)
+    (hd : ((Teardown.run .discard t {} h).comp wo).w.done = true) :
+    (∀ x, (Teardown.step .discard t (Teardown.run .discard t {} h) (.fwd w r)).1.comp x = (Teardown.run .discard t {} h).comp x) ∧
+    waiting ((Teardown.step .discard t (Teardown.run .discard t {} h) (.fwd w r)).1.reads w r) =
+      waiting ((Teardown.run .discard t {} h).reads w r) ∧
+    ((Teardown.step .discard t (Teardown.run .discard t {} h) (.fwd w r)).2 = .skip ∨
+     (Teardown.step .discard t (Teardown.run .discard t {} h) (.fwd w r)).2 = .c (.w { ret := .cnt 0 })) := by
+  obtain ⟨sp, hR⟩ := backed_run .discard t {} h (fun _ => backed_init) w
+  exact fwd_after_close t _ w r wo hl (hR.pendClosed r hc) hd
+
+/-- Non-vacuity: a node (in-port 0 = reader 0 of writer 0, out-port 0 = writer 1) between a source
+and a sink; a request has been handed to the node's in-reader and not been taken by the forward
+loop's bookkeeping yet (it is inside the action) when the node is closed.  The hypotheses hold; the
+action returns (`fwd`): the write is refused with count 0; the requester of writer 0 – never closed –
+is released with `dropped` by the drop notice of the closed in-reader. -/
+theorem C03.action_returns_after_node_close_nonvacuous :
+    let t : Topo := { consumer := fun w => if w = 1 then .node 0 0 else .requester,
+                      listener := fun w _ => if w = 0 then .node 1 else .sink 0,
+                      inPorts := [[(0, 0)]], outPorts := [[1]], nodes := [(0, 0)] }
+    let h : List Teardown.Step := [.prim 0 (.w (.link 0)), .prim 1 (.w (.link 0)), .prim 0 (.w (.write 7)), .down (.nodeClose 0)]
+    let s := Teardown.run .discard t {} h
+    t.listener 0 0 = .node 1 ∧ (s.comp 0).w.closed 0 = true ∧ (s.comp 1).w.done = true ∧ (s.comp 0).w.done = false ∧
+    s.inbox 0 0 = [7] ∧ (s.comp 0).outstanding = 1 ∧
+    (Teardown.step .discard t s (.fwd 0 0)).2 = .c (.w { ret := .cnt 0 }) ∧
+    ((Teardown.run .discard t s [.fwd 0 0, .prim 0 (.w (.deliverDrop 0)), .prim 0 .recv]).comp 0).got = [.got Resp.dropped] ∧
+    ((Teardown.run .discard t s [.prim 0 (.w (.deliverDrop 0)), .prim 0 .recv, .fwd 0 0]).comp 0).got = [.got Resp.dropped] := by
+  decide
 
 /-- **The late listener finds its writer.**  A node's backward loop is a listener of the out-port:
 `OutPort.Open` starts it in its own goroutine and it obtains the writer with a second
